@@ -4,6 +4,7 @@ Model of the outbound security decisions of the remote target (C05).  Core Lean 
 Mirrored Go code (tree after the four `fix:` commits recorded in notes/C05.md):
 * `framework/module/mxauth.go`            levels `TLSNone < TLSEncrypted < TLSAuthenticated`, `MXNone < MX_MTASTS < MX_DNSSEC`
 * `internal/target/remote/policy_group.go` the policy list (any list here; the driver builds it in the fixed group order)
+* `framework/config/map.go`               `Map.Enum` (exact match against the allowed words) as used by `localPolicy.Init`: `localInit`
 * `internal/target/remote/security.go`     `CheckMX` / `CheckConn` of mtasts, sts_preload, dane, dnssec, local_policy; `discoverTLSA` (incl. the CNAME branch)
 * `internal/target/remote/dane.go`         `verifyDANE` only through its verdict on the record kind (C13 models the function itself)
 * `internal/target/remote/connect.go`      `connect` (verify → unauthenticated TLS → plaintext), `attemptMX`, `newConn`, `connectionForDomain`
@@ -202,6 +203,22 @@ def verifyDANE (t : Tlsa) (cert : Cert) (tlsOn : Bool) : Verdict :=
   | .eeMatch => .auth
   | .taMatch => if cert == .wrongName then .err else .auth
   | _ => .err
+
+/-! ## a lookup of TLSA discovery that CRASHES (round 9)
+
+`daneDelivery.PrepareConn` runs `discoverTLSA` in a goroutine of its own and recovers a panic there; the future is then
+never completed and `CheckConn` ends — with the delivery's context — in a temporary refusal: for the delivery a crashed
+discovery IS a failed discovery.  The model expresses a crash as facts: the lookup that crashes is a lookup that fails.
+Stages: 1 the address lookups (`CheckCNAMEAD`, always made), 2 the CNAME-type query (`AuthLookupCNAME`, made for an
+alias whose address answer is not authenticated), 3 the TLSA lookups (`AuthLookupTLSA`; the first one that is made
+crashes).  A stage that discovery does not reach has no effect. -/
+
+def MX.crashedAt (mx : MX) (stage : Nat) : MX :=
+  match stage with
+  | 1 => { mx with aAD := true, tlsa := .servfail, cname := if mx.cname == .none then .none else .secure }
+  | 2 => { mx with cnameErr := true }
+  | 3 => { mx with tlsa := .servfail }
+  | _ => mx
 
 /-! ## policies -/
 
@@ -506,6 +523,49 @@ def runConc (cfg : Cfg) (doms : Nat → Domain) (k victim : Nat) :
       let rr := runConc cfg doms k victim rest (i + 1) (acc.merge r.2)
       (some r.1 :: rr.1, rr.2)
 
+/-! ## the configuration words of `local_policy`
+
+`localPolicy.Init` (security.go): `cfg.Enum("min_tls_level", …, ["none", "encrypted", "authenticated"], "encrypted", …)`,
+`cfg.Enum("min_mx_level", …, ["none", "mtasts", "dnssec"], "none", …)` — `config.Map.Enum` (framework/config/map.go)
+accepts the argument only when it EQUALS one of the allowed words (byte for byte) and hands it back as written; the
+`switch` that follows maps the three words to the levels.  A directive that is not written yields the default word.
+Anything else makes `Init` fail: the configuration is refused at start-up.  Words are byte strings (what the lexer
+hands over; quoting is the lexer's business). -/
+
+abbrev Word := List Nat
+
+def wNone          : Word := [110, 111, 110, 101]                                              -- "none"
+def wEncrypted     : Word := [101, 110, 99, 114, 121, 112, 116, 101, 100]                      -- "encrypted"
+def wAuthenticated : Word := [97, 117, 116, 104, 101, 110, 116, 105, 99, 97, 116, 101, 100]    -- "authenticated"
+def wMtasts        : Word := [109, 116, 97, 115, 116, 115]                                     -- "mtasts"
+def wDnssec        : Word := [100, 110, 115, 115, 101, 99]                                     -- "dnssec"
+
+/-- `Enum` + the `switch` for `min_tls_level`: total on the documented words, refused otherwise -/
+def tlsLevelOfWord (w : Word) : Option Nat :=
+  if w = wNone then some 0 else if w = wEncrypted then some 1 else if w = wAuthenticated then some 2 else none
+
+/-- `Enum` + the `switch` for `min_mx_level` -/
+def mxLevelOfWord (w : Word) : Option Nat :=
+  if w = wNone then some 0 else if w = wMtasts then some 1 else if w = wDnssec then some 2 else none
+
+/-- the argument of a directive; `none`: the directive is not written, `Enum` stores the default word
+(`"encrypted"` / `"none"`) -/
+def minTLSOf (w : Option Word) : Option Nat :=
+  match w with
+  | none => tlsLevelOfWord wEncrypted
+  | some w => tlsLevelOfWord w
+
+def minMXOf (w : Option Word) : Option Nat :=
+  match w with
+  | none => mxLevelOfWord wNone
+  | some w => mxLevelOfWord w
+
+/-- `localPolicy.Init`: the policy the block produces, `none` = `Init` returns an error (start-up refused) -/
+def localInit (tlsWord mxWord : Option Word) : Option Policy :=
+  match minTLSOf tlsWord, minMXOf mxWord with
+  | some t, some m => some (Policy.localP t m)
+  | _, _ => none
+
 /-! ## messages that reach the target through `target.queue`
 
 `internal/target/queue/queue.go`: `Queue.Start` stores the POINTER to the `MsgMetadata` object of the message source
@@ -545,5 +605,40 @@ def QMsg.mailUTF8 (m : QMsg) : Bool := m.handedOver.utf8
 /-- a history of messages through one queue in front of one remote target (first attempts, one after the other) -/
 def runVia (cfg : Cfg) (doms : Nat → Domain) (ms : List QMsg) (pool : Pool) : List MsgOut :=
   run cfg doms (ms.map QMsg.toMsg) pool
+
+/-! ### later attempts: from the spool
+
+`tryDelivery` keeps the recipients whose error was temporary (`exterrors.IsTemporaryOrUnspec`), writes the meta-data
+back with `updateMetadataOnDisk` (a deep copy of `MsgMeta`, connection state removed — every field the remote target
+reads is written as it is) and schedules the next attempt, which `dispatch` makes with what `readMessageMeta` reads from
+the spool; a queue instance started on an existing spool (`readDiskQueue`) does the same for its FIRST attempt. -/
+
+/-- the recipients (their domains, in order) that are tried again -/
+def retryRcpts (o : MsgOut) : List Nat :=
+  (o.rcpts.filter (fun p => p.2 == RcptRes.err .temp)).map (·.1)
+
+/-- the meta-data as read back from the spool: what the object contained when it was written, i.e. at the end of the
+body stage (`storeNewMessage`) — `updateMetadataOnDisk` drops nothing the target reads -/
+def QMsg.spooled (m : QMsg) : Meta := m.atBody
+
+/-- the message of a later attempt, for the recipients `rs` -/
+def QMsg.retryMsg (m : QMsg) (rs : List Nat) : Msg :=
+  ⟨m.spooled.requireTLS, m.spooled.tlsNo, if m.spooled.quarantine then 1 else 0, rs⟩
+
+/-- the messages of the second round, given the outcomes of the first attempts -/
+def retryList (ms : List QMsg) (outs : List MsgOut) : List Msg :=
+  (ms.zip outs).filterMap (fun p =>
+    let rs := retryRcpts p.2
+    if rs.isEmpty then none else some (p.1.retryMsg rs))
+
+/-- first attempts in the world `domsA`, then — the world has changed to `domsB`, the target starts with an empty pool —
+the second attempts from the spool, in message order -/
+def runRetry (cfg : Cfg) (domsA domsB : Nat → Domain) (ms : List QMsg) : List MsgOut × List MsgOut :=
+  let o1 := runVia cfg domsA ms emptyPool
+  (o1, run cfg domsB (retryList ms o1) emptyPool)
+
+/-- the queue went down before the first attempt: every message is attempted from the spool -/
+def runFromSpool (cfg : Cfg) (doms : Nat → Domain) (ms : List QMsg) : List MsgOut :=
+  run cfg doms (ms.map (fun m => m.retryMsg m.rcpts)) emptyPool
 
 end MaddyVerif.RemoteSec
